@@ -7,6 +7,13 @@ d=$(mktemp -d /dev/shm/klongpy-confirm-XXXXXX)
 rsync -a --exclude .git --exclude '__pycache__' /repo/ "$d/"
 echo "== demo on unchanged tree"; ( cd /tmp && PYTHONPATH=/repo timeout 300 /venv/bin/python $src/demo.py >/tmp/confirm-$name-base.log 2>&1 ); echo "exit=$?"
 ( cd "$d" && patch -p1 -s < $src/patch.diff ) || { echo "PATCH FAILED"; rm -rf "$d"; exit 9; }
-echo "== suite with patch"; ( cd "$d" && PYTHONPATH="$d" /venv/bin/python -m pytest -q -p no:cacheprovider --timeout=900 -n 8 -W ignore 2>&1 | grep -E "^FAILED|passed|failed" | tail -5 )
+( cd "$d" && PYTHONPATH="$d" /venv/bin/python -m pytest -q -p no:cacheprovider --timeout=900 -n 8 -W ignore > /tmp/confirm-$name-suite.log 2>&1 )
+SUITE=$(grep -E "^FAILED|passed|failed" /tmp/confirm-$name-suite.log | tr '\n' ' ')
+# the two load-sensitive tests (10 s CLI subprocess timeout, interval-0 timer race) are re-run alone when they fail
+if echo "$SUITE" | grep -q FAILED; then
+  RERUN=$( cd "$d" && PYTHONPATH="$d" /venv/bin/python -m pytest -q -p no:cacheprovider $(grep -E "^FAILED" /tmp/confirm-$name-suite.log | sed -e 's/^FAILED //' -e 's/ - .*//' | tr '\n' ' ') -W ignore 2>&1 | tail -1 )
+  SUITE="$SUITE || failed tests re-run alone: $RERUN"
+fi
 echo "== demo with patch"; ( cd /tmp && PYTHONPATH="$d" timeout 300 /venv/bin/python $src/demo.py >/tmp/confirm-$name-mut.log 2>&1 ); echo "exit=$?"; tail -3 /tmp/confirm-$name-mut.log
 rm -rf "$d"
+echo "SUITE: $SUITE"
